@@ -6142,6 +6142,11 @@ static int convert_from_object_fficallback(char *result,
         }
     }
  skip:
+    if ((ctype->ct_flags & (CT_STRUCT | CT_UNION)) && ctype->ct_size > 0) {
+        /* the value can be a partial initializer: the fields it does not
+           name are zero, like with ffi.new() */
+        memset(result, 0, ctype->ct_size);
+    }
     return convert_from_object(result, ctype, pyobj);
 }
 
